@@ -205,6 +205,54 @@ CFGS = {"q_loc": ("locate", {"cart2a": 9, "cart1": 6, "cart2": 9, "cart3": 8, "c
         "q_ren": ("render", {}), "q_trk": ("track", {}), "t_trk": ("track", {})}
 
 
+def drive_trackers(out):
+    """the trackers as a simulation drives them: every documented way of naming the field (None for a scalar state, an
+    index into a collection -- 0 included --, a callable) on frames with and without droplets; nothing raises"""
+    import os
+    import shutil
+    import warnings
+
+    from pde import CartesianGrid, FieldCollection, ScalarField
+
+    from droplets import DiffuseDroplet, Emulsion
+    from droplets.trackers import DropletTracker, LengthScaleTracker
+
+    grid = CartesianGrid([[0, 16], [0, 16]], 16, periodic=[True, False])
+    frames = [Emulsion([DiffuseDroplet([8.0, 8.0], 4.0, 1.0)]).get_phasefield(grid), ScalarField(grid, 0.0),
+              Emulsion([DiffuseDroplet([4.0, 5.0], 2.5, 1.0), DiffuseDroplet([11.0, 11.0], 3.0, 1.0)]).get_phasefield(grid)]
+    other = ScalarField(grid, 0.25)
+    work = core.WORK / f"c09-trackers-{os.getpid()}"
+    work.mkdir(parents=True, exist_ok=True)
+    try:
+        for name, source, wrap in (("None", None, lambda f: f), ("0", 0, lambda f: FieldCollection([f, other])),
+                                   ("1", 1, lambda f: FieldCollection([other, f])),
+                                   ("callable", lambda fs: fs[1], lambda f: FieldCollection([other, f]))):
+            for refine in (False, True):
+                fails = []
+                try:
+                    with warnings.catch_warnings():
+                        warnings.simplefilter("ignore")
+                        tr = DropletTracker(1, filename=str(work / "t.h5"), source=source, refine=refine)
+                        ls = LengthScaleTracker(1, filename=str(work / "t.json"), source=source)
+                        for k, f in enumerate(frames):
+                            tr.handle(wrap(f), 0.5 * k)
+                            ls.handle(wrap(f), 0.5 * k)
+                        tr.finalize()
+                        ls.finalize()
+                    if [len(e) for e in tr.data] != [1, 0, 2] or len(ls.length_scales) != 3:
+                        fails.append(f"tracker with source={name} recorded {[len(e) for e in tr.data]} droplets per frame, the frames hold [1, 0, 2]")
+                    if not all(np.all(np.isfinite(d._data_array[: d.dim + 1])) for e in tr.data for d in e):
+                        fails.append("non-finite droplet recorded by the tracker")
+                except Exception as exc:  # noqa: BLE001
+                    fails.append(f"tracker with source={name}, refine={refine} raised {type(exc).__name__}: {str(exc)[:100]}")
+                out.evaluations += 1
+                if fails:
+                    out.violation({"trackers": {"source": name, "refine": refine}, "fails": fails})
+    finally:
+        shutil.rmtree(work, ignore_errors=True)
+    out.parts["trackers"] = {"sources": ["None", "0", "1", "callable"]}
+
+
 def run(out: core.Outcome) -> None:
     import multiprocessing as mp
 
@@ -273,6 +321,7 @@ def run(out: core.Outcome) -> None:
     if out.extra.get("rejected_outcome_classes") and out.violations == 0 and out.known == 0:
         raise core.MachineryError("TraceOutcome rejected an outcome the harness accepted")
     out.extra["distinct_outcome_classes"] = len(traces)
+    drive_trackers(out)
     out.explanation = out.rule
     out.assumptions = [
         "numpy's default floating-point error state (warnings, not exceptions), as a user runs it",
